@@ -227,8 +227,9 @@ def run(db, tier):
                       "converts the value as requested (%s -> %s)" % (ga[1] if len(ga) > 1 else "?", ga[0]),
                       "the operand of this range check was computed with %s (line %s): bits of the requested value are dropped before the check, so an out-of-range value is accepted and a different value is stored" % (lossy_op or ("?", "?")))
     rep.floor("integer TryFrom/TryInto conversions in writer-reachable code", n_try, 5)
-    from props import c15
+    from props import c15, c12
     rep.absorb(c15.run(db, tier), rules=("R-FIT", "R-NOREPLACE"), why="a string that does not fit or cannot be encoded must be an error, not a different string")
+    rep.absorb(c12.run(db, tier), rules=("R-MASK", "R-CODEC-ARMS", "R-DEC-LEN", "R-PADDING"), why="the register mask and the argument bytes read back must be what the call requested")
     # ---------------- R-FILE-CODEC: leading fields of file structures
     rep.rule("R-FILE-CODEC", "sibling reader/writer functions of file headers and table records read and write leading fields of the same widths (symbolic I/O paths)")
     codec.file_codec(db, rep)
